@@ -247,7 +247,8 @@ def main():
         for m in inconclusive:
             print(f"INCONCLUSIVE property={prop} {m}")
         rc = 2
-    write_evidence(prop, tier, seed, plan, merged, violations, wall, inconclusive="; ".join(inconclusive) if inconclusive else None, known=known_lines)
+    if not replay:  # a replay must not replace the evidence of the last real run
+        write_evidence(prop, tier, seed, plan, merged, violations, wall, inconclusive="; ".join(inconclusive) if inconclusive else None, known=known_lines)
     ev = merged
     print(f"{prop} {tier}: {ev['cases']} histories / {ev['ops']} ops, {len(ev['hashes'])} distinct, "
           f"{sum(1 for v in ev['hashes'].values() if v)} distinct non-trivial, {len(violations)} violation(s), wall {wall:.1f}s")
